@@ -34,7 +34,7 @@ func (c15) Assumptions() []string {
 	return []string{"self-differential: a fresh ValueReader running the same code is the reference", "documents and pool schedules are sampled"}
 }
 func (c15) Required(tier string) []string {
-	return []string{"P-miss", "P-pick", "P-evict", "X-mutate-result", "A-abort", "pool-hit-with-stale-size-hint", "pool-hit-with-used-scratch", "pool-hit-with-retained-slice", "read-after-failed-read", "read-after-depth-limit-exit", "read-after-10x-larger-document", "snapshots-rechecked", "input-in-reused-arena", "top-level-string", "next-message-same-address-same-length-other-content", "thousands-of-never-seen-field-names"}
+	return []string{"P-miss", "P-pick", "P-evict", "X-mutate-result", "A-abort", "pool-hit-serves-a-previously-used-reader", "read-after-failed-read", "read-after-depth-limit-exit", "read-after-10x-larger-document", "snapshots-rechecked", "input-in-reused-arena", "top-level-string", "next-message-same-address-same-length-other-content", "thousands-of-never-seen-field-names"}
 }
 
 var vrOps = []string{"VR.ReadValue", "VR.ReadObject", "VR.ReadArray"}
